@@ -54,11 +54,12 @@ def main():
             meta['confirmed'] = (rc0 == 0 and rca == 0 and rc1 != 0 and ok_tests)
         finally:
             sh(f'git -C /repo worktree remove --force {wt}')
-    # run the checks against /repo with the patch applied
-    rc, out = sh('git -C /repo status --porcelain')
-    if out.strip():
-        print('refusing: /repo is dirty'); sys.exit(2)
-    rca, oa = sh(f'git -C /repo apply {patch}')
+    # run the checks against a scratch worktree with the patch applied
+    # (VERIF_REPO points the checks at that checkout; same as applying to /repo)
+    wt2 = f'/tmp/seedrun_{name}'
+    sh(f'git -C /repo worktree remove --force {wt2}')
+    sh(f'git -C /repo worktree add -q {wt2} HEAD')
+    rca, oa = sh(f'git apply {patch}', cwd=wt2)
     res = {}
     try:
         if rca != 0:
@@ -66,19 +67,17 @@ def main():
         else:
             for c in checks:
                 t0 = time.time()
-                rcc, oc = sh(f'./check {c} --tier {tier}', cwd=ROOT, timeout=7200)
+                rcc, oc = sh(f'VERIF_REPO={wt2} ./check {c} --tier {tier}', cwd=ROOT, timeout=7200)
                 viol = [l for l in oc.split('\n') if l.startswith('VIOLATION')]
                 keys = [l.strip() for l in oc.split('\n') if l.strip().startswith('key=')]
                 res[c] = {'exit': rcc, 'violations': len(viol), 'keys': keys[:6],
                           'summary': oc.strip().split('\n')[-1], 'wall_s': round(time.time() - t0, 1)}
     finally:
-        sh('git -C /repo checkout -- .')
-        # evidence files were rewritten against the patched tree: restore committed ones
-        sh('git checkout -- evidence', cwd=ROOT)
-        sh('git clean -fdq replays', cwd=ROOT)
+        sh(f'git -C /repo worktree remove --force {wt2}')
+        shutil.rmtree(os.path.join(ROOT, '.work', 'alt-' + os.path.basename(wt2)), ignore_errors=True)
     meta['checks'] = res
     meta['caught_by'] = [c for c, r in res.items() if r['exit'] == 1]
-    meta['what_ran'] = f'git -C /repo apply patch.diff; ./check <id> --tier {tier} for {checks}; git -C /repo checkout -- .'
+    meta['what_ran'] = f'scratch worktree of /repo HEAD + git apply patch.diff; demo.py and pytest there; VERIF_REPO=<worktree> ./check <id> --tier {tier} for {checks}; worktree removed'
     json.dump(meta, open(os.path.join(dst, 'meta.json'), 'w'), indent=1)
     print(json.dumps(meta, indent=1)[:3000])
 
